@@ -27,6 +27,12 @@ impl Wake for SimWaker {
     }
 }
 
+/// True when the waker was woken since the last call: a `Pending` answered right after that is a
+/// cooperative yield ("poll me again"), not "nothing available".
+pub fn took_wake(flag: &SimWaker) -> bool {
+    flag.woken.swap(false, Ordering::SeqCst)
+}
+
 pub fn new_waker() -> (Arc<SimWaker>, Waker) {
     let w = Arc::new(SimWaker {
         woken: AtomicBool::new(false),
